@@ -959,6 +959,16 @@ def witness(rep):
         FAMILIES[fam](Ctx(rep, t, fam, P))
         rep.evaluations += 1
     rep.count('witness:inf-polygon')
+    # a frame of inert points only, one of them infinite, queried with every end omitted
+    # (total_bounds is NaN, so the query box is NaN)
+    t2 = Trial('point', [], [[inf, -inf], None, [float('nan'), float('nan')]], [True, True, True],
+               True, 'all', 2)
+    P2 = dict(P, boxes=[[-1e7, -1e7, 1e7, 1e7], [0.0, 0.0, 1.0, 1.0]],
+              open=[['x0', 'x1', 'y0', 'y1'], ['x0', 'y1']])
+    for fam in ('array', 'cx', 'dask'):
+        FAMILIES[fam](Ctx(rep, t2, fam, P2))
+        rep.evaluations += 1
+    rep.count('witness:all-inert-open-ends')
 
 
 def replay(rep, rp):
